@@ -61,6 +61,8 @@ def main(tier, seed):
         R('wide', fm.wide(**chk), invariants=inv, simulate=2500 if q else 40000),
         R('wide-hr', fm.wide(na=2, **chk), invariants=inv, simulate=1500 if q else 20000),
         R('four students, short lists', fm.four_short(**chk), invariants=inv, simulate=2000 if q else 30000),
+        R('large ids: shared lecturer', fm.shifted(NL=1, **chk), invariants=inv, simulate=240 if q else 3000),
+        R('large ids: two lecturers', fm.shifted(**chk), invariants=inv, simulate=160 if q else 2000),
     ]
     for r in runs:
         r['worker'] = replay_checker
